@@ -326,6 +326,17 @@ func enumerateQueries(cfg genConfig) []*Query {
 		}
 	}
 
+	if !cfg.thorough {
+		// quick tier: the three-stage shape parser, label filter, drop (a drop after a filter on the same SELECT)
+		for _, ps := range []Stage{jsonAtoms()[0], regexpAtoms()[0]} {
+			for _, ls := range labelStages(treesOver(extractedLeaves(true), 1, nil)) {
+				for _, d := range dropAtoms() {
+					add(all, ps, ls, d)
+				}
+			}
+		}
+	}
+
 	// 5. selector variety in front of pipelines: every core matcher with a core stage of each kind
 	heads := []Stage{coreLF[0], coreLF[6], jsonAtoms()[0], regexpAtoms()[0], dropAtoms()[0], coreStored[0], coreStored[4]}
 	for _, m := range matcherAtoms(true) {
